@@ -170,6 +170,8 @@ pub struct RunCfg {
     pub cases: u64,
     pub first_case: u64,
     pub max_secs: f64,
+    /// single-stepped re-runs: the index of the case about to run is written here first
+    pub progress: Option<String>,
 }
 
 /// Run `cases` cases on `threads` threads. Each case is identified by its index so that it
@@ -201,6 +203,9 @@ where
                         stop.store(true, Ordering::Relaxed);
                         rep.count("stopped_by_time_budget", 1);
                         break;
+                    }
+                    if let Some(p) = &cfg.progress {
+                        let _ = std::fs::write(p, format!("{}", i));
                     }
                     let r = catch_unwind(AssertUnwindSafe(|| f(i, &mut rep)));
                     if r.is_err() {
